@@ -119,6 +119,40 @@ theorem Helo_EncodeMsg_is_model (m : Helo) (pre : Bytes) :
     runEnc HeloSrc.get Helo_EncodeMsg m pre = appended pre (some m.marshal) := by
   rcases m with ⟨mt, opts⟩; simp only [Helo_EncodeMsg]; cases opts <;> sk_unfold <;> sk_fin
 
+/-! ### EntryList encoders -/
+
+/-- the loop appends the entries' encodings one after another; the first entry that cannot be encoded ends the call with its error -/
+theorem eloop_entries (es : List (Instant × GoVal)) (k : St → ERes) (s : St) (hs : s.err = false) :
+    eloop [.raw [146], .put .eventTime .Timestamp .checked, .put .intf .Record .checked] es k s
+      = match marshalEntries es with
+        | some bs => k { s with out := s.out ++ bs }
+        | none => .err := by
+  induction es generalizing s with
+  | nil => simp [eloop, marshalEntries]
+  | cons e es ih =>
+    rcases e with ⟨t, r⟩
+    simp only [eloop, eexecs, eexec, EntryExtSrc.get, Option.bind, encPrim, marshalEntries, EntryExt.marshal]
+    cases hr : GoVal.encode r with
+    | none => simp
+    | some rb =>
+      simp only [Option.map]
+      rw [ih _ (by simp)]
+      cases marshalEntries es <;> simp [List.append_assoc, hs]
+
+theorem EntryList_MarshalMsg_is_model (es : List (Instant × GoVal)) (pre : Bytes) :
+    runLE EntryList_MarshalMsg es pre = appended pre (EntryList.marshal es) := by
+  simp only [runLE, EntryList_MarshalMsg, eexecL, eexec]
+  rw [eloop_entries _ _ _ rfl]
+  simp only [EntryList.marshal, appended, ERes.ofOption]
+  cases marshalEntries es <;> simp [List.append_assoc]
+
+theorem EntryList_EncodeMsg_is_model (es : List (Instant × GoVal)) (pre : Bytes) :
+    runLE EntryList_EncodeMsg es pre = appended pre (EntryList.marshal es) := by
+  simp only [runLE, EntryList_EncodeMsg, eexecL, eexec]
+  rw [eloop_entries _ _ _ rfl]
+  simp only [EntryList.marshal, appended, ERes.ofOption]
+  cases marshalEntries es <;> simp [List.append_assoc]
+
 /-- not vacuous: an unknown statement, a nil options pointer handed to its encoder and a missing return are panics -/
 example : runEnc MessageSrc.get [.unknown "x"] ⟨[], 0, .nil, none⟩ [] = .panic "statement not understood by the translator: x" := rfl
 example : runEnc MessageSrc.get [.put .options .Options .checked, .ret] ⟨[], 0, .nil, none⟩ []
